@@ -440,10 +440,24 @@ func c13ModelProm(r *h.Result, rng *h.Rng, n int) error {
 		hints.Func = h.Pick(rng, c13PromFns)
 		var ms []*labels.Matcher
 		var raw, down []string
+		req := ""
 		for k, nm := 0, rng.Range(1, 4); k < nm; k++ {
 			t := h.Pick(rng, []labels.MatchType{labels.MatchEqual, labels.MatchNotEqual, labels.MatchRegexp, labels.MatchNotRegexp})
 			name, val := h.Pick(rng, c17Names), h.Pick(rng, c17Regex)
-			ms = append(ms, &labels.Matcher{Type: t, Name: name, Value: val})
+			lm, err := labels.NewMatcher(t, name, val)
+			if err != nil {
+				return fmt.Errorf("model-prom: generator made an invalid matcher: %v", err)
+			}
+			ms = append(ms, lm)
+			// what fingerprintsQuery asks the label index: a matcher that accepts the empty value inverted, its bit not
+			// required (fix of C17/select-matcher-on-absent-label); the model takes the asked matchers and the bits
+			if lm.Matches("") {
+				t = map[labels.MatchType]labels.MatchType{labels.MatchEqual: labels.MatchNotEqual, labels.MatchNotEqual: labels.MatchEqual,
+					labels.MatchRegexp: labels.MatchNotRegexp, labels.MatchNotRegexp: labels.MatchRegexp}[t]
+				req += "0"
+			} else {
+				req += "1"
+			}
 			anch := val
 			if t == labels.MatchRegexp || t == labels.MatchNotRegexp {
 				anch = "^(?:" + val + ")$"
@@ -455,7 +469,7 @@ func c13ModelProm(r *h.Result, rng *h.Rng, n int) error {
 		hs := fmt.Sprintf("%s %d %d %d %d %s", hx(p.Metrics15sTableName), hints.Start, hints.End, hints.Step, hints.Range, hx(hints.Func))
 		if res, err := promtr.TranspileLabelMatchers(hints, c.planner(), ms...); err == nil {
 			if t, err := res.Query.String(sql.DefaultCtx()); err == nil {
-				ops = append(ops, "c13prom raw "+c.ser()+" "+hs+" "+strings.Join(raw, ";"))
+				ops = append(ops, "c13prom raw "+c.ser()+" "+hs+" "+strings.Join(raw, ";")+" "+req)
 				impl = append(impl, t)
 				cases = append(cases, c13mCase{"model-prom", "raw", fmt.Sprintf("hints=%+v matchers=%v", *hints, ms), c, t, ""})
 				r.Case(fmt.Sprintf("model-prom:raw:%+v:%v:%v", *hints, ms, c), true)
@@ -467,7 +481,7 @@ func c13ModelProm(r *h.Result, rng *h.Rng, n int) error {
 		}
 		if sel, err := promtr.GetLabelMatchersDownsampleRequest(hints, c.planner(), ms...); err == nil {
 			if t, err := sel.String(sql.DefaultCtx()); err == nil {
-				ops = append(ops, "c13prom down "+c.ser()+" "+hs+" "+strings.Join(down, ";"))
+				ops = append(ops, "c13prom down "+c.ser()+" "+hs+" "+strings.Join(down, ";")+" "+req)
 				impl = append(impl, t)
 				cases = append(cases, c13mCase{"model-prom", "downsample", fmt.Sprintf("hints=%+v matchers=%v", *hints, ms), c, t, ""})
 				r.Case(fmt.Sprintf("model-prom:down:%+v:%v:%v", *hints, ms, c), true)
@@ -512,7 +526,7 @@ func c13ModelProf(r *h.Result, rng *h.Rng, n int) error {
 			op := h.Pick(rng, []string{"=", "!=", "=~", "!~"})
 			val := h.Pick(rng, c17Regex)
 			sels = append(sels, profparser.Selector{Name: name, Op: op, Val: profparser.Str{Str: strconv.Quote(val)}})
-			parts = append(parts, c17OpName(op)+":"+hx(name)+":"+hx(val))
+			parts = append(parts, c17SelectorArg(c17E2EMatcher{Type: op, Name: hx(name), Value: hx(val)}))
 		}
 		ctx := shared.PlannerContext{From: time.Unix(0, from).In(z), To: time.Unix(0, to).In(z), Ctx: context.Background(), ProfilesSeriesGinTable: "profiles_series_gin"}
 		q, err := (&proftr.StreamSelectorPlanner{Selectors: sels}).Process(&ctx)
